@@ -29,7 +29,7 @@ Definition pname (o : V.opc) : string :=
 (* the exporter of Venom.v lists the operands in EVM order (reversed IR order) except for these *)
 Definition no_reverse (o : V.opc) : bool :=
   match o with
-  | V.O_jmp | V.O_jnz | V.O_djmp | V.O_phi => true
+  | V.O_jmp | V.O_jnz | V.O_djmp | V.O_phi | V.O_istore => true   (* istore: c14_pass_export.NO_REVERSE *)
   | V.O_unknown c => snd (nth (Z.to_nat c) unk ("", false))
   | _ => false
   end.
@@ -231,7 +231,8 @@ Proof.
   intros v Hv Pv. rewrite PositiveMap.gss in Hv. injection Hv as <-.
   unfold V.wrapped in Ew. set (sm := V.mask _ st) in Ew.
   rewrite P1, P2, P3 in G.
-  assert (NR : no_reverse (V.i_op i) = false) by (destruct (V.i_op i); try reflexivity; discriminate S).
+  assert (NR : no_reverse (V.i_op i) = false).
+  { destruct (V.i_op i) eqn:Eop; try reflexivity; try discriminate S. exfalso. cbn in G. discriminate G. }
   unfold proj_args in G, HL. rewrite NR in G, HL.
   unfold inst_lit_ok in L.
   destruct (vassign (V.i_op i)) eqn:EA.
